@@ -133,12 +133,12 @@ Section World.
   Definition quiet (o : op) : bool :=
     match o with
     | OCall _ _ _ _ | ORegister _ _ => true
-    | OWriteFile _ _ | OMutate _ _ => false
+    | OWriteFile _ _ | OMutate _ _ | OUnregister _ => false
     end.
 
   Lemma step_pres w o : quiet o = true -> pres w (fst (step w o)).
   Proof.
-    destruct o as [d S m evs|p i|p f|a rows]; simpl; try discriminate; intros _.
+    destruct o as [d S m evs|p i|p f|a rows|i]; simpl; try discriminate; intros _.
     - pose proof (get_emodulus_w_agree w d S m evs) as [P _].
       destruct (get_emodulus_w w d S m evs); exact P.
     - pose proof (register_pres w p i) as P.
@@ -168,7 +168,7 @@ Section World.
     only_calls ops = true -> forall w, agree w (fst (run_ops w ops)).
   Proof.
     induction ops as [|o r IH]; intros H w; simpl; [apply agree_refl|].
-    destruct o as [d S m evs| | |]; try discriminate. simpl in H. simpl.
+    destruct o as [d S m evs| | | |]; try discriminate. simpl in H. simpl.
     pose proof (get_emodulus_w_agree w d S m evs) as A1.
     destruct (get_emodulus_w w d S m evs) as [w1 x].
     pose proof (IH H w1) as A2. destruct (run_ops w1 r) as [w2 xs]. simpl in *.
@@ -348,7 +348,7 @@ Section World.
   Proof.
     induction ops as [|o r IH]; intros U w1 w2 R; simpl; auto.
     simpl in U. apply andb_prop in U. destruct U as [U1 U2].
-    destruct o as [d S m evs|p i|p f|a rows]; simpl.
+    destruct o as [d S m evs|p i|p f|a rows|i]; simpl.
     - pose proof (same_env_call n0 w1 w2 d S m evs R) as R1.
       destruct (get_emodulus_w w1 d S m evs) as [w1' x]. simpl in R1.
       pose proof (IH U2 w1' w2 R1) as R2.
@@ -373,6 +373,12 @@ Section World.
       pose proof (IH U2 _ _ R1) as R2.
       destruct (run_ops (hwrite w1 a rows) r) as [wa xa].
       destruct (run_ops (hwrite w2 a rows) (erase_calls r)) as [wb xb]. exact R2.
+    - assert (R1 : same_env n0 (unregister w1 i) (unregister w2 i)).
+      { destruct R as (F & I & E & N1 & N2 & H). unfold unregister.
+        repeat split; simpl; auto. congruence. }
+      pose proof (IH U2 _ _ R1) as R2.
+      destruct (run_ops (unregister w1 i) r) as [wa xa].
+      destruct (run_ops (unregister w2 i) (erase_calls r)) as [wb xb]. exact R2.
   Qed.
 
   Lemma loaded_same_env n0 w1 w2 d :
@@ -407,6 +413,43 @@ Section World.
     rewrite Z.eqb_refl. simpl. rewrite Z.eqb_refl. reflexivity.
   Qed.
 End World.
+
+Lemma register_files w p i w' r :
+  register_lut w p i = (w', r) ->
+  w_files w' = w_files w /\ w_internal w' = w_internal w.
+Proof.
+  unfold register_lut.
+  destruct (match i with Some i0 => Ok i0 | None => _ end) as [id|e];
+    [|intros H; inversion H; auto].
+  destruct (zlookup id (w_ext w)); [intros H; inversion H; auto|].
+  destruct (zlookup id (w_internal w)); intros H; inversion H; auto.
+Qed.
+
+Lemma register_then_resolve_aux w i p q w1 w2 :
+  zlookup i (w_files w) = None -> zlookup i (w_internal w) = None ->
+  register_lut w p (Some i) = (w1, Ok tt) ->
+  register_lut (unregister w1 i) q (Some i) = (w2, Ok tt) ->
+  get_lut_path w2 i = Ok q.
+Proof.
+  intros F I R1 R2.
+  destruct (register_files _ _ _ _ _ R1) as [F1 I1].
+  unfold register_lut in R2. simpl in R2.
+  destruct (zlookup i (filter (fun kv => negb (fst kv =? i)%Z) (w_ext w1)));
+    [inversion R2|].
+  rewrite I1, I in R2. inversion R2; subst. unfold get_lut_path. simpl.
+  rewrite F1, F, I, Z.eqb_refl. reflexivity.
+Qed.
+
+(* re-binding an identifier: after it was removed and registered again with
+   another file, the identifier resolves to the NEW file *)
+Theorem rebind_resolves_new w i p q w1 w2 :
+  zlookup i (w_files w) = None -> zlookup i (w_internal w) = None ->
+  register_lut w p (Some i) = (w1, Ok tt) ->
+  register_lut (unregister w1 i) q (Some i) = (w2, Ok tt) ->
+  get_lut_path w2 i = Ok q.
+Proof.
+  intros F I R1 R2. eapply register_then_resolve_aux; eauto.
+Qed.
 
 (* registry semantics *)
 Theorem register_then_resolve w p i w' :
